@@ -174,6 +174,12 @@ func (h *Handler) Handle(cx *layer4.Connection, next layer4.Handler) error {
 	// Set conn as a custom variable on cx.
 	cx.SetVar("l4.proxy_protocol.conn", conn)
 
+	// placeholders follow the addresses the header declares, like RemoteAddr()/LocalAddr() do
+	if repl, ok := cx.Context.Value(layer4.ReplacerCtxKey).(*caddy.Replacer); ok {
+		repl.Set("l4.conn.remote_addr", conn.RemoteAddr())
+		repl.Set("l4.conn.local_addr", conn.LocalAddr())
+	}
+
 	return next.Handle(cx.Wrap(conn))
 }
 
